@@ -41,8 +41,14 @@ def is_io_result(x):
     return x.get("k") in ("call", "mcall") and ty.startswith("std::result::Result<") and "std::io::Error" in ty.split(",")[-1]
 
 
+_F = None
+
+
 def err_arm_ok(arm_body, errvar):
-    """the arm produces Ok(Rc::new(Object::Err(ErrorObj::IO(<errvar>))))"""
+    """the arm produces Ok(Rc::new(Object::Err(ErrorObj::IO(<errvar>)))) — written in place or through a small helper
+    (`io_error_object(e)`), which is looked through"""
+    if _F is not None:
+        arm_body = H.inline_helpers(_F, arm_body)
     for x in H.walk(arm_body):
         if x.get("k") == "call" and x.get("ctor") == "object::Object::Err":
             inner = H.strip(x["args"][0])
@@ -67,6 +73,8 @@ def classify_match(m):
 
 
 def run(F, R, tier):
+    global _F
+    _F = F
     R.explanation = EXPL
     R.assumptions += ["which errno each failing target produces is the OS's business"]
     tab = dict(builtin_table(F, R) or [])
@@ -117,6 +125,15 @@ def run(F, R, tier):
                     det = "bound to `%s`, then: %s" % (pa["pat"]["name"], det)
                 else:
                     det = "bound to `%s` and matched %d times" % (pa["pat"]["name"], len(ms))
+                    if not ms:
+                        # handed to a helper of the repository that does the matching (`writer_handle_or_error(file)`)
+                        for c2 in H.walk(b):
+                            if c2.get("k") in ("call", "mcall") and c2.get("callee") in F.fns and any(H.local_id(H.strip(a2)) == lid for a2 in c2.get("args", [])):
+                                inl = H.inline_helpers(F, c2, depth=1)
+                                ms2 = [m for m in H.walk(inl) if m.get("k") == "match" and not H.is_try(m) and H.local_id(H.strip(m["scrut"])) == lid]
+                                if len(ms2) == 1:
+                                    ok, det = classify_match(ms2[0])
+                                    det = "bound to `%s`, handed to %s, there: %s" % (pa["pat"]["name"], H.last(c2["callee"]), det)
             elif kind == "match" and not H.is_try(pa) and pa["scrut"] is not x:
                 # value of a match arm: follow the enclosing let binding to where it is matched
                 cur = pa
